@@ -3,21 +3,21 @@
    insert path, lookups, janitor runs, reload clones, in-place reconfigurations, refresh completions,
    entry-level probes) from an empty cache with configuration c.  Histories, configurations, instants,
    names, types, scopes and keys are universally quantified with no bound.
-   history_wf = values in their domains: instants not before the epoch, reply TTLs not negative (uint32 in
-   the code), configured fixed TTLs and stale window not negative. *)
+   history_wf = the configured stale window (initially and after every reload) is not negative. *)
 From Coq Require Import List ZArith NArith Bool.
 From Dae Require Import C08_Spec C08_Model C08_Proofs.
 Import ListNotations.
 Open Scope Z_scope.
 
-(* Scope + liveness (C08_scope, C08_fresh_until_deadline, C08_never_after_window of the design, as one
-   statement): whatever a lookup under cache key `key` serves after any history is the answer of the MOST
-   RECENT cacheable insert made under exactly that key, and at the instant of the lookup that insert's
-   deadline d (as computed by the insert path, m_deadline) has not passed - or optimistic caching is on in
-   the configuration then in force and the instant is inside the stale window after d. *)
+(* Scope + liveness (C08_scope, C08_fresh_until_deadline, C08_never_after_window, C08_fixed_ttl of the design,
+   as one statement in the spec's terms): whatever a lookup under cache key `key` serves after any history
+   is the answer of the MOST RECENT cacheable insert made under exactly that key, and at the instant of the
+   lookup that insert's deadline d - the spec's: insert instant + TTL, or + the fixed TTL configured for that
+   name compared case-insensitively - has not passed, or optimistic caching is on in the configuration then in
+   force and the instant is inside the stale window after d. *)
 Theorem C08_served_only_live :
   forall (c : cfg) (h : list timed) (now : Z) (key : bytes) (ans ttl : Z) (r : bool),
-    history_wf c h -> 0 <= now ->
+    history_wf c h ->
     snd (m_lookup (fst (m_run c h)) now key) = ObLook true ans ttl r ->
     exists d, last_insert c h key None = Some (ans, d)
               /\ servable (normalize (cfg_after c h)) d now <> None.
@@ -27,56 +27,30 @@ Print Assumptions C08_served_only_live.
 (* The same about the cache contents: the served answer is the one stored under that key, servable now. *)
 Theorem C08_never_after_window :
   forall (c : cfg) (h : list timed) (now : Z) (key : bytes) (ans ttl : Z) (r : bool),
-    history_wf c h -> 0 <= now ->
+    history_wf c h ->
     let s := fst (m_run c h) in
     snd (m_lookup s now key) = ObLook true ans ttl r ->
     exists e, mfind key (m_store s) = Some e /\ ans = e_ans e /\ servable (m_cfg s) (e_deadline e) now <> None.
 Proof. exact never_after_window_proof. Qed.
 Print Assumptions C08_never_after_window.
 
-(* fixed_domain_ttl.  Full statement: the insert path's deadline is the spec's (fixed TTL of that name,
-   names compared case-insensitively).  It is FALSE of the code: the lookup in the fixed-TTL table uses the
-   name as echoed by the upstream, not lower-cased. *)
-Definition C08_fixed_ttl_full : Prop :=
+(* fixed_domain_ttl: the deadline computed by the insert path (configured names lower-cased by the parser,
+   reply name lower-cased at the lookup) is the spec's, for every configuration, name, TTL and instant. *)
+Theorem C08_fixed_ttl :
   forall fixed host ttl now, m_deadline fixed host ttl now = spec_deadline fixed host ttl now.
-Theorem C08_fixed_ttl_refuted : ~ C08_fixed_ttl_full.
-Proof. exact fixed_ttl_full_refuted_proof. Qed.
-Print Assumptions C08_fixed_ttl_refuted.
-(* ... with the consequence that an answer is served after its configured fixed TTL has run out: *)
-Theorem C08_fixed_ttl_served_refuted :
-  snd (m_lookup (fst (m_run w_cfg_fixed w_hist_fixed)) (w_t0 + 2 * sec) (key_of [97; 46]%N 1 ScNone)) = ObLook true 7 298 false
-  /\ servable (effective w_cfg_fixed) (spec_deadline (c_fixed w_cfg_fixed) [65; 46]%N 300 w_t0) (w_t0 + 2 * sec) = None.
-Proof. exact fixed_ttl_served_refuted_proof. Qed.
-Print Assumptions C08_fixed_ttl_served_refuted.
-(* Partial: when no configured name differs from the reply's name only by letter case, the deadlines agree
-   (and C08_served_only_live then speaks about the spec's deadline). *)
-Theorem C08_fixed_ttl_partial :
-  forall fixed host ttl now,
-    case_consistent fixed (strip_dot host) -> m_deadline fixed host ttl now = spec_deadline fixed host ttl now.
-Proof. exact fixed_ttl_partial_proof. Qed.
-Print Assumptions C08_fixed_ttl_partial.
+Proof. exact fixed_ttl_proof. Qed.
+Print Assumptions C08_fixed_ttl.
 
-(* Stale window.  Full statement: an entry of a reachable cache whose deadline has passed is served while
-   optimistic caching is on and the instant is inside the window.  It is FALSE of the code: the insert path
-   never stores deadlineNano, from which GetStaleResponse computes the window. *)
-Definition C08_stale_within_window_full : Prop :=
+(* Stale window: in every reachable cache, an entry whose deadline has passed is served while optimistic
+   caching is on and the instant is inside the window (window 0 = no limit). *)
+Theorem C08_stale_within_window :
   forall c h now key e,
     history_wf c h ->
     mfind key (m_store (fst (m_run c h))) = Some e ->
     servable (m_cfg (fst (m_run c h))) (e_deadline e) now = Some Stale ->
     exists ttl r, snd (m_lookup (fst (m_run c h)) now key) = ObLook true (e_ans e) ttl r.
-Theorem C08_stale_within_window_refuted : ~ C08_stale_within_window_full.
-Proof. exact stale_within_window_full_refuted_proof. Qed.
-Print Assumptions C08_stale_within_window_refuted.
-(* Partial: for every entry whose deadlineNano was stored (entries that went through a reload clone), in any state. *)
-Theorem C08_stale_within_window_partial :
-  forall (s : mstate) (now : Z) (key : bytes) (e : entry),
-    mfind key (m_store s) = Some e ->
-    e_dnano e = e_deadline e ->
-    servable (m_cfg s) (e_deadline e) now = Some Stale ->
-    exists ttl r, snd (m_lookup s now key) = ObLook true (e_ans e) ttl r.
-Proof. exact stale_within_window_partial_proof. Qed.
-Print Assumptions C08_stale_within_window_partial.
+Proof. exact stale_within_window_proof. Qed.
+Print Assumptions C08_stale_within_window.
 
 (* At most one refresh per cycle: after a lookup that asked for a refresh of `key`, no later lookup of `key`
    asks again, whatever happens in between (other lookups, janitor runs, in-place reconfiguration, inserts
@@ -89,21 +63,22 @@ Theorem C08_single_refresh :
 Proof. exact single_refresh_proof. Qed.
 Print Assumptions C08_single_refresh.
 
-(* TTL truthfulness of the in-place fill (the path every production-inserted fresh entry takes, because its
-   deadlineNano is unset): the shown TTL never exceeds max 1 (floor remaining) + slack. *)
+(* TTL truthfulness of the in-place fill: the shown TTL never exceeds max 1 (floor remaining) + slack. *)
 Theorem C08_fill_ttl_truthful : forall d now, now < d -> ttl_ok d now (ttl_from_deadline d now) = true.
 Proof. exact fill_ttl_truthful_proof. Qed.
 Print Assumptions C08_fill_ttl_truthful.
 
-(* Non-vacuity: a well-formed history with a replacement under a differently-cased name, a reload, a fresh hit
-   of the latest answer, and a refusal after expiry. *)
+(* Non-vacuity: a well-formed history with a replacement under a differently-cased name whose fixed TTL is
+   configured in yet another case, a reload, a fresh hit of the latest answer, a stale hit asking for a
+   refresh inside the window, and a refusal beyond it. *)
 Example C08_nonvacuous :
   let h := [(w_t0, Insert w_name 1 ScNone w_name false true 1 7 300);
             (w_t0 + sec, Lookup w_name 1 ScNone);
             (w_t0 + 2 * sec, Reload w_cfg);
-            (w_t0 + 3 * sec, Insert [65; 46]%N 1 ScNone w_name false true 1 8 2)] in
+            (w_t0 + 3 * sec, Insert [65; 46]%N 1 ScNone w_name false true 1 8 300)] in
   history_wf w_cfg h
-  /\ snd (m_lookup (fst (m_run w_cfg h)) (w_t0 + 4 * sec) (key_of w_name 1 ScNone)) = ObLook true 8 1 false
+  /\ snd (m_lookup (fst (m_run w_cfg h)) (w_t0 + 4 * sec) (key_of w_name 1 ScNone)) = ObLook true 8 2 false
   /\ last_insert w_cfg h (key_of w_name 1 ScNone) None = Some (8, w_t0 + 5 * sec)
-  /\ snd (m_lookup (fst (m_run w_cfg h)) (w_t0 + 6 * sec) (key_of w_name 1 ScNone)) = ObLook false (-1) 0 false.
+  /\ snd (m_lookup (fst (m_run w_cfg h)) (w_t0 + 6 * sec) (key_of w_name 1 ScNone)) = ObLook true 8 2 true
+  /\ snd (m_lookup (fst (m_run w_cfg h)) (w_t0 + 66 * sec) (key_of w_name 1 ScNone)) = ObLook false (-1) 0 false.
 Proof. exact nonvacuous_proof. Qed.
